@@ -44,6 +44,8 @@ var concSources = []string{
 	`set f to transform return match + matchLength end replace all at least 1 letter with f`,
 	`set p to pattern at least 1 letter begin return matchLength > 1 end find all p`,
 	`set q to pattern at least 1 any fewest begin if head match == 'a' then return true end return matchLength == 2 end find all q ' ' or q`,
+	`set p3 to pattern at least 1 letter begin set n to matchLength if n > 3 then return false end return n > 1 end find all p3`,
+	`set f3 to transform set a to head match set b to tail match return b + a end replace all at least 2 letter with f3 '!' f3`,
 	`find all @/(a/`,
 	`find all (`,
 	`find all @/(x)(y)(z)\3\2\1/ find all @/(q)\1/`,
